@@ -156,6 +156,47 @@ static void big_counts()
     else if (g_rank == 0) ++g_ok;
 }
 
+// a fast 64-bit engine for the run below (discard is linear)
+struct huge_engine
+{
+    using result_type = std::uint64_t;
+    static constexpr result_type min() { return 0; }
+    static constexpr result_type max() { return ~std::uint64_t(0); }
+    std::uint64_t s = 88172645463325252ULL;
+    result_type operator()() { s ^= s << 13; s ^= s >> 7; s ^= s << 17; return s; }
+    void discard(unsigned long long k) { while (k--) (*this)(); }
+    friend bool operator==(huge_engine const& a, huge_engine const& b) { return a.s == b.s; }
+    friend std::ostream& operator<<(std::ostream& o, huge_engine const& e) { return o << e.s; }
+    friend std::istream& operator>>(std::istream& i, huge_engine& e) { return i >> e.s; }
+};
+
+// a call count above 2^32 (directed search when the translated share expression no longer matches the headers, and thorough tier):
+// all ranks together must evaluate exactly N points and every rank's share must be N / P or N / P + 1
+static void huge_calls()
+{
+    typedef float T;
+    std::size_t const n = (std::size_t(1) << 32) + 100003;
+    unsigned long evals = 0;
+    auto f = [&](hep::mc_point<T> const&) { ++evals; return T(1); };
+    // (the discards of the other ranks' numbers are linear in N for this engine: a few seconds per rank)
+    auto c0 = hep::make_plain_chkpt<T, huge_engine>(huge_engine());
+    auto chk = hep::mpi_plain(MPI_COMM_WORLD, hep::make_integrand<T>(f, 1), std::vector<std::size_t>{n}, c0, hep::mpi_callback<decltype(c0)>(hep::callback_mode::silent));
+    unsigned long all = 0, lo = 0, hi = 0;
+    MPI_Allreduce(&evals, &all, 1, MPI_UNSIGNED_LONG, MPI_SUM, MPI_COMM_WORLD);
+    MPI_Allreduce(&evals, &lo, 1, MPI_UNSIGNED_LONG, MPI_MIN, MPI_COMM_WORLD);
+    MPI_Allreduce(&evals, &hi, 1, MPI_UNSIGNED_LONG, MPI_MAX, MPI_COMM_WORLD);
+    auto const& r = chk.results().back();
+    bool const ok = all == n && r.calls() == n && r.non_zero_calls() == n && lo >= n / g_world && hi <= n / g_world + 1;
+    if (g_rank == 0 && !ok)
+    {
+        char buf[400];
+        std::snprintf(buf, sizeof buf, "mpi_plain<float>, one iteration asked for %zu calls on %d ranks: the ranks evaluated %lu points (shares between %lu and %lu), the result reports calls=%zu non_zero_calls=%zu",
+            n, g_world, all, lo, hi, r.calls(), r.non_zero_calls());
+        ++g_fail; std::printf("FAIL C04 %s\nFAIL C02 real MPI: %s\nFAIL C16 real MPI: %s\n", buf, buf, buf);
+    }
+    else if (g_rank == 0) ++g_ok;
+}
+
 int main(int argc, char** argv)
 {
     MPI_Init(&argc, &argv);
@@ -175,6 +216,7 @@ int main(int argc, char** argv)
     all_for<double, std::independent_bits_engine<std::mt19937, 14, std::uint32_t>>("double", seed * 100 + 70, "independent_bits_engine<mt19937, 14>");
     all_for<long double, std::linear_congruential_engine<unsigned long long, 6364136223846793005ULL, 1ULL, 18446744073709551557ULL>>("long double", seed * 100 + 71, "lcg m=2^64-59");
     big_counts();
+    if (argc > 2 && std::string(argv[2]) == "huge") huge_calls();
     if (g_rank == 0) std::printf("SUMMARY ok=%d fail=%d world=%d\n", g_ok, g_fail, g_world);
     MPI_Finalize();
     return 0;
